@@ -272,9 +272,15 @@ def DecoOut.isRejected : DecoOut → Bool
   | .rejected _ => true
   | .manager _ => false
 
-/-- `safe_[async_]contextmanager(f)` for an `f` of kind `k`; `hasName`: `f.__name__` exists -/
-def decorate (m : Mode) (k : FnKind) (hasName : Bool) : DecoOut :=
-  match decoCheck m k with
+def testsOnParam : Mode → Bool
+  | .sync => syncTestsOnParam
+  | .async => asyncTestsOnParam
+
+/-- `safe_[async_]contextmanager(f)` for an `f` of kind `k`; `uk`: the kind of `inspect.unwrap(f)` (what a `__wrapped__` chain set by
+    `functools.wraps` / `update_wrapper` leads to; `k` itself when `f` carries none); `hasName`: `f.__name__` exists.  Which of the two
+    the kind tests look at is read from the source. -/
+def decorate (m : Mode) (k uk : FnKind) (hasName : Bool) : DecoOut :=
+  match decoCheck m (if testsOnParam m then k else uk) with
   | some r => .rejected (if r.needsName && !hasName then "AttributeError" else r.cls)
   | none => .manager (shape m).wrappedBy
 
